@@ -36,8 +36,10 @@ LossyDtype == \E c \in DCols : t.dtype[c] = "ok" /\ c \notin t.dropped /\
 LosslessDtype == \E c \in DCols : t.dtype[c] = "ok" /\ c \notin t.dropped /\
                 \E k \in (IF c = "alter" THEN {"int_as_float"} ELSE IF c = "kind" THEN {"bool_as_int01", "bool_as_float01"} ELSE {"float_as_int"}) :
                    t' = [t EXCEPT !.dtype[c] = k] /\ Log("LosslessDtype", <<c, k>>, FALSE)
-Fault == DropPid \/ DuplicatePid \/ DanglingPointer \/ SelfPointer \/ VaryHHInput \/ ContradictJoint \/ DropRequired \/ DuplicateColumn \/ LossyDtype
-Next == (Faults < MaxFaults /\ Fault) \/ (Len(hist) - Faults < 1 /\ Len(hist) < MaxFaults + 1 /\ LosslessDtype)
+G == Faults < MaxFaults            \* guard of every fault action (top-level disjuncts so that TLC reports coverage per fault class)
+B == Len(hist) - Faults < 1 /\ Len(hist) < MaxFaults + 1
+Next == (G /\ DropPid) \/ (G /\ DuplicatePid) \/ (G /\ DanglingPointer) \/ (G /\ SelfPointer) \/ (G /\ VaryHHInput)
+        \/ (G /\ ContradictJoint) \/ (G /\ DropRequired) \/ (G /\ DuplicateColumn) \/ (G /\ LossyDtype) \/ (B /\ LosslessDtype)
 Spec == Init /\ [][Next]_vars
 \* theorems
 FaultBreaksValid == Faults >= 1 => ~Valid(t)
